@@ -76,6 +76,18 @@ CLAIMED = {
              "type and are not shared with another instance (FillOK/RunOK).",
         note=TRUST + " State and exception class compared with the real Circuit after every call of random histories.",
         ref="§4 C07"),
+    "C08": dict(
+        technique="Lean 4 theorems (blocking-clause loop invariant over an abstract sound+complete solver, built on the C01 "
+                  "encoder theorems) + byte-for-byte correspondence of the DIMACS text + brute-force counting search",
+        text="Proof: `model_count_exact` (the loop terminates and returns exactly the number of startpoint valuations that "
+             "extend to a consistent valuation satisfying the assumptions; any assumption set, zero startpoints included), "
+             "`model_count_order_irrelevant`, `dimacs_projection` (the formula handed to the external counter, projected on "
+             "its sampling set, has exactly those valuations as models), `signal_probability_exact`. The DIMACS text itself "
+             "(header, numbering, clause lines) is modelled and compared byte-for-byte with what the real code writes "
+             "(captured by a stand-in approxmc). use_xor_clauses=True is outside the statement and not modelled.",
+        note=TRUST + " Solver and approxmc are abstract/stand-ins. signal_probability's cone extraction (tx.subcircuit) is tied "
+             "by correspondence and brute-force search, the theorem is about the count on the extracted cone.",
+        ref="§4 C08"),
 }
 
 NOT_YET = "check not built yet in this round (see DESIGN.md §4 for the plan); will be claimed when its Lean model and harness exist"
